@@ -94,6 +94,13 @@ inductive ReqK where
   | call (cid : Nat) (req : Nat) (kind : String)          -- kind: call | new
   | auth (cid : Nat) (req : Nat)
   | httpCall (cid : Nat) (h : Nat) (accessStatus callStatus : Option Int)   -- CallHTTPResource
+  | httpMapped (cid : Nat) (h : Nat) (accessStatus callStatus : Option Int) -- the same for a mapped PUT/DELETE/PATCH
+  deriving Repr, Inhabited
+
+/-- What an HTTP request goes on to do once header authentication has answered. -/
+inductive HttpNext where
+  | get (rid : String)
+  | call (rid action params : String)
   deriving Repr, Inhabited
 
 /-- Items of a cache entry's queue (`EventSubscription.queue`). -/
@@ -106,6 +113,7 @@ inductive CItem where
   | accessDone (sub : SubRef) (a : Access) (throttle : Option Nat)
   | httpAccessDone (sub : SubRef) (h : Nat) (a : Access) (mstatus : Option Int)
   | httpCallAccessDone (sub : SubRef) (h : Nat) (action params : String) (a : Access) (mstatus : Option Int)
+  | httpAuthDone (cid : Nat) (h : Nat) (a : CallAns) (mstatus : Option Int) (next : HttpNext)
   | callDone (k : ReqK) (a : CallAns)
   | resetResource (throttle : Option Nat)
   | resetAccess (throttle : Option Nat)
@@ -218,6 +226,8 @@ inductive KItem where
   | httpGet (h : Nat) (rid : String)
   | httpAccess (h : Nat) (uid : Nat) (a : Access) (mstatus : Option Int)
   | httpCall (h : Nat) (rid action params : String)
+  | httpAuth (h : Nat) (next : HttpNext)
+  | httpAuthAnswer (h : Nat) (a : CallAns) (mstatus : Option Int) (next : HttpNext)
   | httpCallAccess (h : Nat) (uid : Nat) (action params : String) (a : Access) (mstatus : Option Int)
   | tokenReset (tids : List String) (subject : String)
   | dispose
@@ -255,6 +265,7 @@ inductive MqK where
   | access (entry : Nat) (sub : SubRef) (th : Option Nat)
   | httpAccess (entry : Nat) (sub : SubRef) (h : Nat)
   | httpCallAccess (entry : Nat) (sub : SubRef) (h : Nat) (action params : String)
+  | httpAuth (entry : Nat) (cid : Nat) (h : Nat) (next : HttpNext)
   | call (entry : Nat) (k : ReqK)
   | query (entry : Nat) (rs : Nat)
   | tokenAuth
@@ -281,6 +292,7 @@ structure Gw where
   ord : Nat := 0                              -- iteration order parameter for map ranges
   ordCtr : Nat := 0                           -- number of randomised map ranges so far (ord ≥ 6)
   flat : Bool := false                        -- apiEncoding jsonflat
+  hauth : Bool := false                       -- Config.HeaderAuth set (hauth.svc.login)
   out : Array String := #[]
   panic : Option String := none
   deriving Inhabited
